@@ -51,7 +51,7 @@ def rule_tokens(ctx):
         # ordered alternatives inside the token rule: a longer alternative first must not swallow more than the printed token
         ok = s in lits and first and first[0] == s and q.get(rule) == "PrecomputedTerm::" + v
         ctx.add("PRN-K", "PrecomputedTerm:" + v, bool(ok), ctx.site(pb), "%s is printed `%s`, grammar rule `%s` accepts %s, parser builds %s" % (v, s, rule, lits, q.get(rule)))
-    ctx.add("PRN-K", "PrecomputedTerm:slots", t.get("PrecomputedTerm::Numeral(_)") == "{n}" and t.get("PrecomputedTerm::Symbol(_)") == "{s}", ctx.site(pb), "numerals and symbols are printed verbatim")
+    ctx.add("PRN-K", "PrecomputedTerm:slots", t.get("PrecomputedTerm::Numeral(_)") == "{}" and t.get("PrecomputedTerm::Symbol(_)") == "{}", ctx.site(pb), "numerals and symbols are printed verbatim")
     # the order of precomputed_term alternatives: a symbol must not be tried before `#inf`, integers before symbols is irrelevant (disjoint first characters)
     alts = [a.get("v") for a in g.alternatives("precomputed_term")]
     ctx.add("PRN-K", "PrecomputedTerm:alternatives", set(alts) == {"infimum", "integer", "symbol", "supremum"}, "src/parsing/asp/mini_gringo/grammar.pest", "precomputed_term alternatives: %s" % alts)
@@ -202,7 +202,7 @@ def rule_lists(ctx):
     bb = printers.display_impl(fx, "asp", "Body")
     bp = printers.evaluate(fx, bb)
     seps = [item[1] for c, l, item in bp.out if item[0] == "write"]
-    ctx.add("LIST", "Body:separator", seps == ["{formula}", ", {formula}"], ctx.site(bb), "body formulas are separated by `, ` (the grammar accepts `,` and `;`)")
+    ctx.add("LIST", "Body:separator", seps == ["{}", ", {}"], ctx.site(bb), "body formulas are separated by `, ` (the grammar accepts `,` and `;`)")
     # variables and symbols are printed verbatim
     vb = printers.display_impl(fx, "asp", "Variable")
     v = printers.evaluate(fx, vb).value
